@@ -388,7 +388,7 @@ def gen_case(rng: random.Random, P: Dict[str, Any]) -> Case:
                 for pos in range(rng.randint(1, P["max_cands"])):
                     mk(s, ev, "on", pos)
         if s.kind != "final" and s is not tree.root and rng.random() < P["p_always"]:
-            t = mk(s, "", "always", 0, forward_only=True)
+            t = mk(s, "", "always", 0, forward_only=not P.get("loops", False))
             if t is not None and t.guard is None and rng.random() < 0.5:
                 t.guard = rng.choice(case.atoms[:natoms])
         if s.kind != "final" and s is not tree.root and rng.random() < P["p_invoke"]:
@@ -422,7 +422,7 @@ def gen_case(rng: random.Random, P: Dict[str, Any]) -> Case:
     if P["p_effects"] or P["p_raise"]:
         for t in case.trans:
             if t.kind == "on" and rng.random() < P["p_raise"]:
-                later = [e for e in case.events if e > t.event]
+                later = list(case.events) if P.get("loops") else [e for e in case.events if e > t.event]
                 if later:
                     t.actions.append({"$": "raise", "ev": rng.choice(later)})
             if rng.random() < P["p_effects"]:
@@ -434,7 +434,7 @@ def gen_case(rng: random.Random, P: Dict[str, Any]) -> Case:
                 fx.setdefault("ex:" + s.id, []).append(_rand_effect(rng, case, f"fx.ex.{s.key}"))
             if s is not tree.root and rng.random() < P["p_raise"] * 0.4:
                 fx.setdefault("en:" + s.id, []).append(
-                    {"$": "braise", "ev": rng.choice(case.events)})
+                    {"$": "raise" if P.get("loops") else "braise", "ev": rng.choice(case.events)})
     case.by_marker = {t.marker: t for t in case.trans}
     case.plan = build_plan(case, fx)
     return case
